@@ -132,6 +132,10 @@ func (fr *Frame) checkFrame(c *Contract, ex *frameExempt, rs *State, ri int) {
 		return
 	}
 	vc := fr.vc
+	if vc.prune && vc.counters["frame-havoc"] > 0 {
+		// the frame is already refuted by a live call without frame contract; per-return obligations add nothing
+		return
+	}
 	next0 := fr.entry.next
 	var names []string
 	for k := range vc.heapSort {
